@@ -157,7 +157,9 @@ def audit_images(ctx, drv, cases):
         for (i, fl, dump, meta) in exp:
             g = got.get(i)
             want_meta = G.H(meta)
-            if g is None or g[0] != fl or g[2].strip() != (dump or "").strip() or (meta and not g[1].startswith(want_meta if want_meta != "-" else "")):
+            # (the reader prints at most a prefix of long metadata)
+            meta_ok = (not meta) or want_meta == "-" or g is None or g[1].startswith(want_meta) or (len(g[1]) >= 512 and want_meta.startswith(g[1]))
+            if g is None or g[0] != fl or g[2].strip() != (dump or "").strip() or not meta_ok:
                 ctx.fail(dict(kind="content"), dict(ops=c.ops[:c.ops.index("image " + p) + 1], db=i, file=str(g)[:300], reference=str((fl, dump))[:300]),
                          "file image of db %d differs from the reference contents: file %s / reference %s" % (i, str(g)[:150], str((fl, dump))[:150]))
                 break
